@@ -95,6 +95,14 @@ def run(tier, replay=None):
     if len(der) > b3:
         der = rnd.sample(der, b3)
     cases = gen.dedupe(ed1 + ed2 + der, key)
+    # control-flow skeletons with break / continue / return also where they are illegal (GenCtl, AllowInvalid)
+    from . import c01
+    from .. import render
+    import json as _json
+    skel, gk = c01.generate(work / "skeletons", 2 if tier == "quick" else 3, allow_invalid=True)
+    for c in skel:
+        if not c["valid"] or tier == "thorough":
+            cases.append(dict(kind="skeleton", src=c["id"], toks=[], text=render.program(_json.loads(_json.dumps(c["prog"]["body"])))))
     # plus the untouched corpus and its token-joined form
     for s in srcs:
         cases.append(dict(kind="corpus", src=str(s.relative_to(work)), toks=[], text=s.read_text(errors="replace")))
@@ -115,7 +123,7 @@ def run(tier, replay=None):
                           dict(kind=c["kind"], files={"main.ms": c["text"]}, observed=o))
     rep.coverage = dict(
         evaluations=len(cases), distinct_nontrivial=len(cases), outcome_classes=classes,
-        single_edits_enumerated=n1, single_edits_run=len(ed1), multi_edit_run=len(ed2), derivations_run=len(der), corpus_files=len(srcs),
+        illegal_placement_skeletons=sum(1 for c in cases if c["kind"] == "skeleton"), single_edits_enumerated=n1, single_edits_run=len(ed1), multi_edit_run=len(ed2), derivations_run=len(der), corpus_files=len(srcs),
         rule="MSGrammar.tla: (a) token-edit machine over the tokenised example corpus: all single delete/duplicate/swap edits (quick: deterministic thinning) and seeded simulations of up to 3 edits incl. replace/insert from a 55-token vocabulary; (b) leftmost derivations of the transcribed grammar with a depth budget (seeded -simulate); (c) the corpus itself; distinct by token sequence",
         samples=[dict(kind=c["kind"], text=c["text"][:160], outcome=c["obs"]["cls"]) for c in cases[:: max(1, len(cases) // 3)][:3]],
         states=g1.distinct, transitions=g1.generated, slowest_compile_s=round(max(c["obs"]["wall"] for c in cases), 2),
